@@ -19,7 +19,9 @@ use serde_json::{Value, json};
 use crate::tape::{hash_str, mix};
 
 pub const VERIF_DIR: &str = "/verif";
-pub const GEN_VERSION: u32 = 1;
+/// Bumped whenever a generator changes the meaning of tapes (stored reproducers / regression inputs
+/// then have to be regenerated: `regen_reproducers.py`, `make_seed_regressions.sh`).
+pub const GEN_VERSION: u32 = 3;
 
 #[derive(Clone, Debug, PartialEq, Eq)]
 pub struct Input {
@@ -185,6 +187,7 @@ pub struct Finding {
     pub what: String,
     pub commit: Option<String>,
     pub reproducer: Option<Input>,
+    pub gen_version: Option<u64>,
 }
 
 pub fn load_findings() -> Vec<Finding> {
@@ -202,6 +205,7 @@ pub fn load_findings() -> Vec<Finding> {
                     what: f["what"].as_str().unwrap_or("").to_string(),
                     commit: f["commit"].as_str().map(str::to_string),
                     reproducer: f.get("reproducer").and_then(Input::from_json),
+                    gen_version: f.get("gen_version").and_then(Value::as_u64),
                 })
                 .collect()
         })
@@ -501,6 +505,9 @@ fn run_saved(prop: &dyn Property, tier: Tier) -> (Vec<String>, Vec<(Violation, V
             continue;
         };
         n += 1;
+        if f.gen_version != Some(u64::from(GEN_VERSION)) {
+            lines.push(format!("NOTE: property={id} reproducer of {} was recorded with generator version {:?}, current is {GEN_VERSION}: regenerate it (regen_reproducers.py)", f.signature, f.gen_version));
+        }
         let strict = Ctx { tier, known: BTreeSet::new(), want_sample: false, strict: true };
         // timing-dependent cases: try a few times
         let mut hit = false;
@@ -786,6 +793,22 @@ pub fn saved(prop: &dyn Property, tier: Tier) {
         emit(&json!({"type": "harness_error", "msg": e}));
     }
     emit(&json!({"type": "saved", "n": n}));
+}
+
+/// `vcheck find <id> <signature>`: searches random cases (strict mode: nothing excluded or tolerated)
+/// for a violation with exactly this signature, minimises it while it keeps the signature, and prints
+/// the input as JSON. Used to (re)generate the reproducers stored in known_findings.json.
+pub fn find_signature(prop: &dyn Property, sig: &str, seed: u64, max_cases: u64) -> Option<Input> {
+    let (la, lb) = prop.tape_lens(Tier::Quick);
+    let ctx = Ctx { tier: Tier::Quick, known: BTreeSet::new(), want_sample: false, strict: true };
+    let hit = |i: &Input| prop.run(i, &ctx).violations.iter().any(|v| v.sig == sig);
+    for n in 0..max_cases {
+        let input = Input { a: crate::tape::tape_from_seed(mix(seed, n), la), b: crate::tape::tape_from_seed(mix(seed ^ 0x5EED, n), lb) };
+        if hit(&input) {
+            return Some(minimize(input, &hit));
+        }
+    }
+    None
 }
 
 /// `vcheck replay <id> <file>`
